@@ -425,6 +425,14 @@ RECIPES = {
         fields=["q_l", "q_r", "q_c", "q_fixed_group_add"], call_args=["sep", "a_i", "a_i_w", "b_i", "b_i_w", "c_i", "d_i", "d_i_w"]),
     "curve_addition.compute_quotient_i": dict(kind="pk_quotient", struct=WP + "ecc::curve_addition::ProverKey",
         fields=["q_variable_group_add"], call_args=["sep", "a_i", "a_i_w", "b_i", "b_i_w", "c_i", "d_i", "d_i_w"]),
+    "arithmetic.compute_linearization": dict(kind="pk_linearization", struct=WP + "arithmetic::ProverKey",
+        fields=["q_m", "q_l", "q_r", "q_o", "q_f", "q_c", "q_arith"], call_args=["evaluations"]),
+    "range.compute_linearization": dict(kind="pk_linearization", struct=WP + "range::ProverKey", fields=["q_range"], call_args=["sep", "evaluations"]),
+    "logic.compute_linearization": dict(kind="pk_linearization", struct=WP + "logic::ProverKey", fields=["q_c", "q_logic"], call_args=["sep", "evaluations"]),
+    "fixed_base.compute_linearization": dict(kind="pk_linearization", struct=WP + "ecc::scalar_mul::fixed_base::ProverKey",
+        fields=["q_l", "q_r", "q_c", "q_fixed_group_add"], call_args=["sep", "evaluations"]),
+    "curve_addition.compute_linearization": dict(kind="pk_linearization", struct=WP + "ecc::curve_addition::ProverKey",
+        fields=["q_variable_group_add"], call_args=["sep", "evaluations"]),
 }
 for _u in UNITS:
     if _u.name in RECIPES:
